@@ -63,4 +63,47 @@ CHECKS = {
         "assumptions": ["lint registrations are syntactic lint.Register* calls with a literal Name (the census reports any that are not)",
                         "the harness test binary imports github.com/zmap/zlint/v3 exactly as a default build does"],
     },
+    "C07": {
+        "legs": legs_simple("props", "^TestC07$", 14, 16),
+        "rule": "enumerated: every lint alone (Filter IncludeNames=[l]) on K of its home objects (2 quick / all thorough); rapid: generated objects x generated valid FilterOptions "
+                "(singletons, subsets, sources, regexps, chains of two filters), on fresh parses and on one shared parsed object in both orders. Oracle: selected lints' status and "
+                "details equal the full run's, keys == selected lints of the kind, filtered flags imply full flags. Non-trivial = proper non-empty selection with >=1 finding among "
+                "the selected lints; distinct by hash(DER, filters).",
+        "assumptions": COMMON_ASSUME,
+    },
+    "C08": {
+        "legs": legs_simple("props", "^TestC08$", 14, 16),
+        "rule": "rapid FilterOptions over the real registry and over pre-filtered registries: name lists (nil / empty / known names with stray blanks, duplicates, all three kinds, "
+                "case-changed, truncated, empty, random), source lists (all constants, Unknown, arbitrary strings, sources without lints), regexps from a dictionary, all combinations. "
+                "Oracle: set-algebra model of the statement (error cases, selection, kind, metadata, object identity, Sources(), sorted Names(), lookup consistency, source registry "
+                "unchanged, configuration inherited - probed behaviourally). Non-trivial = >=2 populated option fields and a result neither empty nor everything; distinct by options.",
+        "assumptions": ["'known name' means known to the registry being filtered", "Filter with empty options returns the receiver (documented)"],
+    },
+    "C11": {
+        "legs": legs_simple("props", "^TestC11$", 14, 16),
+        "rule": "rapid TOML documents (empty, unrelated sections incl. other lint names / global sections / nested tables, well-typed options for the configurable lints discovered at "
+                "run time, ill-typed shapes: scalar / array / array-of-tables / wrong field type / table for a scalar) x home objects of those lints, built CRLs, other corpus objects; "
+                "rapid state machine over registries (SetConfiguration / Filter incl. aliasing / lint) against a model of which configuration each registry holds; the example "
+                "configuration is parsed with go-toml. Non-trivial = document naming a configurable lint (distinct by DER+TOML) or a history with >=2 SetConfiguration.",
+        "assumptions": COMMON_ASSUME + ["option semantics modelled for the four configurable lints present today; a new configurable lint is checked against the reference lifecycle only"],
+    },
+    "C13": {
+        "legs": legs_simple("props", "^TestC13$", 4, 8, ),
+        "needs_cli": True,
+        "exhaustive": False,
+        "rule": "enumerated: every Names() element as sole include and sole exclude (padded), every Sources() element through LintSource.FromString, SourceList.FromString (alone, padded, "
+                "in lists), JSON round trip, Include/ExcludeSources and the real CLI (-includeSources/-excludeSources -list-lints-source; -includeNames/-excludeNames for every 9th name "
+                "in quick, all in thorough), every registered profile; rapid: unknown tokens (case-changed, truncated, suffixed, random) must be rejected by Filter, SourceList.FromString, "
+                "JSON decoding and the CLI. Non-trivial = one listed name/source/profile case or one unknown token; distinct by (what, token, padding).",
+        "assumptions": ["the CLI binary is built from the working tree by the driver", "no profile is registered today, so the profile leg is vacuous until one is"],
+    },
+    "C14": {
+        "legs": legs_simple("props", "^TestC14$", 14, 16),
+        "rule": "enumerated: status values -3..12, the eight labels, WriteJSON of the global registry; rapid: result sets from generated objects (biased to names with invalid UTF-8, "
+                "quotes, <>&, NUL so details carry them), synthetic results with arbitrary details bytes x each status, arbitrary label strings, WriteJSON of generated filtered "
+                "registries. Oracle: Unmarshal(Marshal(x)) reproduces keys, status, details (invalid bytes -> U+FFFD), flags, version, timestamp; labels distinct/stable; unknown labels "
+                "rejected; listing lines decode strictly to name/description/citation/known source. Non-trivial = result set with >=1 non-empty details (distinct by details content), "
+                "a synthetic result, a label or a listing.",
+        "assumptions": COMMON_ASSUME,
+    },
 }
